@@ -1,7 +1,7 @@
 """Rules over the local scope stack and bounded containers (C09, C10)."""
 import re
 
-from .core import (Prov, bool_cond_edges, callee_is, discr_cond_edges, has_origin, origin_strs, result_switches,
+from .core import (Prov, bool_cond_edges, callee_is, discr_cond_edges, has_origin, inline_calls, origin_strs, result_switches,
                    root_local, sites_star, first_switches)
 
 STACK = "fastrace::local::local_span_stack::LocalSpanStack::"
@@ -203,7 +203,13 @@ def rule_scope_pairing(ctx, facts, rule):
     fn = ctx.need_fn(facts, "<fastrace::span::LocalParentGuard as core::ops::drop::Drop>::drop", rule)
     if fn is not None:
         col = fn.calls_re(r"LocalCollector::collect_spans_and_token$", cleanup=False)
-        some = discr_cond_edges(fn, prov, r"Option<fastrace::span::LocalParentGuardInner>", ["Some"])
+        takes = [b for b in fn.calls_re(r"Option::<T>::take$", cleanup=False) if "LocalParentGuardInner" in fn.term(b)["arg_tys"][0]]
+        some = set()
+        for tk in takes:
+            for sb in result_switches(fn, tk):       # the first test of the taken value, not drop elaboration's re-tests
+                some |= set(fn.variant_edges(sb, ["Some"]))
+        if not takes:
+            some = discr_cond_edges(fn, prov, r"Option<fastrace::span::LocalParentGuardInner>", ["Some"])
         ok = bool(col) and bool(some) and fn.must_pass([(a, d) for a, d, _ in some], col)[0]
         ctx.check(ok, rule, fn.path, fn.span, "dropping a local-parent guard closes its scope on every path from inner = Some", "",
                   "collect sites %s" % col, extra="guard")
@@ -270,22 +276,36 @@ def rule_scope_always_opened(ctx, facts, rule):
     """Setting a recording span as local parent always opens a scope of its own -- also for an unsampled span, whose
     (non-recording) scope shields the enclosing one from local properties / events / spans."""
     prov = Prov(facts)
-    fn = ctx.need_fn(facts, "fastrace::span::SpanInner::capture_local_spans", rule)
-    if fn is not None:
-        news = sites_star(facts, fn, lambda g, t: t["callee"].endswith("LocalCollector::new"))
-        ok, wit = fn.must_pass([0], news)
-        tok = False
-        for b in news:
-            src = prov.of_operand(fn, fn.term(b)["args"][0])
-            tok = tok or any(v[0] == "call" and v[1].endswith("SpanInner::issue_collect_token") for o in src for v in o.via)
-        ctx.check(ok and bool(news) and tok, rule, fn.path, fn.span,
-                  "capture_local_spans opens a scope (LocalCollector::new with the span's issued token) on every path", "",
-                  "a path returns at bb%s without opening a scope: local operations inside the guard would act on the enclosing "
-                  "scope" % wit, extra="opened")
     at = ctx.need_fn(facts, "fastrace::span::Span::attach_into_stack", rule)
     if at is not None:
-        cap = sites_star(facts, at, lambda g, t: t["callee"].endswith("SpanInner::capture_local_spans"))
-        ctx.check(bool(cap), rule, at.path, at.span, "set_local_parent on a recording span goes through capture_local_spans", "", "no call", extra="attach")
+        # the private helper that builds the guard (SpanInner::capture_local_spans on the confirmed tree) is looked through,
+        # whether it exists, was inlined by hand, or is called from a closure handed to Option::map
+        def helper(g):
+            return g.path.endswith("span::SpanInner::capture_local_spans")
+        bodies = [inline_calls(facts, at, helper, depth=2)] + [inline_calls(facts, c, helper, depth=2) for c in facts.closures_of(at)]
+        found, ok, tok, wit = 0, True, False, None
+        for g in bodies:
+            news = [b for b in g.calls(lambda t: t["callee"].endswith("LocalCollector::new")) if not g.blocks[b]["cleanup"]]
+            if not news:
+                continue
+            found += 1
+            if g.kind == "Closure":
+                starts = [0]      # the closure runs exactly when the span is recording (Option::map on self.inner)
+            else:
+                some = discr_cond_edges(g, prov, r"Option<(&)?fastrace::span::SpanInner>", ["Some"])
+                starts = [(a, d) for a, d, _ in some]
+                ok = ok and bool(some)
+            m, w = g.must_pass(starts, news)
+            ok = ok and m
+            wit = wit if m else w
+            for b in news:
+                src = prov.of_operand(g, g.term(b)["args"][0])
+                tok = tok or any(v[0] == "call" and v[1].endswith("SpanInner::issue_collect_token") for o in src for v in o.via)
+        ctx.check(found > 0 and ok and tok, rule, at.path, at.span,
+                  "setting a recording span as local parent opens a scope (LocalCollector::new with the span's issued token) on every path",
+                  "%d body(ies) open the scope" % found,
+                  "a path returns at bb%s without opening a scope (or no scope is opened from the span's own token): local operations inside "
+                  "the guard would act on the enclosing scope" % wit, extra="opened")
     new = ctx.need_fn(facts, "fastrace::local::local_collector::LocalCollector::new", rule)
     if new is not None:
         reg = sites_star(facts, new, lambda g, t: t["callee"].endswith("LocalSpanStack::register_span_line"))
